@@ -317,6 +317,20 @@ func (eng *Engine) buildIntercepts() {
 		ic[n] = retNothing
 	}
 
+	// WaitGroup: spawned goroutines have run to completion when Wait is reached (gostmt.go)
+	for _, n := range []string{"(*sync.WaitGroup).Add", "(*sync.WaitGroup).Done", "(*sync.WaitGroup).Wait"} {
+		ic[n] = retNothing
+	}
+	ic["(*sync.Once).Do"] = func(ex *Exec, caller *frame, fn *ssa.Function, args []Value) Value {
+		key := fmt.Sprintf("sync.Once@%p", args[0].(PtrV))
+		if _, done := ex.ghost[key]; done {
+			return nil
+		}
+		ex.ghost[key] = ex.tt.BV(1, 1)
+		ex.call(caller, args[1], nil, 0)
+		return nil
+	}
+
 	// ---------------- bytes / sort ----------------
 	ic["bytes.Equal"] = func(ex *Exec, caller *frame, fn *ssa.Function, args []Value) Value {
 		return ex.bytesEqual(bytesOf(ex, args[0]), bytesOf(ex, args[1]))
